@@ -19,7 +19,10 @@ for d in sorted(glob.glob(os.path.join(VERIF, 'seeded', 'C*-*'))):
     sid = os.path.basename(d)
     meta = json.load(open(os.path.join(d, 'meta.json')))
     r = res.get(sid)
-    if r is None:
+    if meta.get('superseded_by_fix'):
+        rep, kind = 'no longer breaks the property', 'superseded by fix %s' % meta['superseded_by_fix']
+        what = 'demo.py exits 0 with the patch applied on the repaired tree; the check reports nothing (rc=%s)' % (r['rc'] if r else '?')
+    elif r is None:
         rep, kind, what = '(not run)', '', ''
     elif r['rc'] == 1 and r['violations']:
         rep = r['prop']
